@@ -460,6 +460,8 @@ struct net : public verif::listener
         }
         else if (op == "oeq")
             reg(t[1], ov.new_eq(ovars.at(t[2]), ovars.at(t[3])));
+        else if (op == "assume" && !lits.count(t[1][0] == '!' ? t[1].substr(1) : t[1]))
+            res = "\"skip-unknown\""; // the request that should have defined the literal was rejected
         else if (op == "assume")
         {
             lit p = L(t[1]);
